@@ -36,6 +36,33 @@ CLAIMS.update({
     },
 })
 
+CLAIMS.update({
+    "C02": {
+        "text": "Guards and totality of verification: in Public_key.verifies every return other than the constant False is reached only with 1 <= r, s <= n-1 (interval entailment at the return states, n = generator.order()), no exception can escape verifies (a possibly-identity result is tested before its coordinate is taken), True is only the outcome of comparing r with x(<double-scalar result>) mod n; verify / verify_digest return only the constant True and let only BadSignatureError (BadDigestError with truncation off) escape for any signature bytes with each of the three library decoders (12 contexts). Decides the range/identity/error-mapping/never-a-false-value clauses; does not decide that mul_add computes (e/s)G + (r/s)Q.",
+        "note": "A1-A7; point arithmetic is summarised (its result may be the identity unless compared with INFINITY); hash functions are contract parameters; digests are assumed non-empty as the property states.",
+        "technique": "abstract interpretation: interval entailment at return states, identity/None typestate, exception-escape analysis",
+        "design": "DESIGN.md section 3 C02",
+    },
+    "C03": {
+        "text": "Guard clauses and provenance of signing: for 1 <= k <= n-1 Private_key.sign lets only RSZeroError escape, every returned Signature has 1 <= r, s <= n-1 (both zero checks dominate the return), r has the shape x((k + c*n)*G) mod n (blinding by multiples of n only) and s is reduced mod n and built from k^-1 mod n, the hash, the secret multiplier and r; sign_number confines the nonce from either source to [1, order-1] before privkey.sign; the digest converter refuses an over-long digest with BadDigestError when truncation is off, is total when on, and reads the integer from a prefix of the digest; from_secret_exponent returns only for 1 <= secexp <= n-1, builds the key from generator * secexp and stores the same secexp. Does not decide the values of r, s, e (shift amount, modular algebra).",
+        "note": "A1-A7; A5 is used for 'a scalar strictly between two multiples of the declared order does not annihilate the point'; the nonce assert in sign_number is treated as a guard (A7).",
+        "technique": "abstract interpretation: interval entailment, term-shape (provenance) checks on symbolic values, must-pass-through guards",
+        "design": "DESIGN.md section 3 C03",
+    },
+    "C04": {
+        "text": "RFC 6979 structure: generate_k returns only values in [1, order-1] and only when retry_gen <= 0, the only write to retry_gen being a decrement by 1 in the acceptance branch; the HMAC-DRBG event order (K/V updates with separator bytes 00/01, the three additional inputs in order, T rebuilt from successive V updates, reseed K(V||00),V on every non-returning path) is checked as a typestate over resolved hmac events; sign_digest_deterministic forwards (generator.order(), secret, hashfunc, the untruncated digest, retry counter, extra entropy) to generate_k, retries on exactly RSZeroError with +1, passes the same digest / k / allow_truncate to sign_digest and encodes with the caller's sigencode; no nondeterminism source is reachable from generate_k and randrange is never called on the deterministic path. Does not decide byte equality with RFC 6979 (bits2int / bits2octets arithmetic, HMAC values).",
+        "note": "A1-A7; an unrecognised but equivalent restructuring of generate_k is reported as ANALYSIS-ERROR (cannot decide), not as a violation.",
+        "technique": "abstract interpretation (range/retry guards, call-argument provenance) + syntax-directed typestate over HMAC events + effect analysis",
+        "design": "DESIGN.md section 3 C04",
+    },
+    "C17": {
+        "text": "randrange (default and caller-supplied entropy) and the seed helpers return only values confined to [1, order-1]; the value returned by randrange is int(drawn bits)+1 of the draw of that iteration with no modulo / min / max / masking by the order in its derivation (rejection, not reduction), every entropy call and return sits inside the rejection loop; os.urandom is the only nondeterminism source reachable from randrange and only as the default for entropy=None, none is reachable from the seed helpers or PRNG, PRNG state is per instance, and the caller's entropy is forwarded unchanged generate -> randrange and sign -> sign_digest -> sign_number -> randrange; bit/byte counts are integer-only. Does not decide exact uniformity (that bit_length(order-2) bits is the right window).",
+        "note": "A1-A7; entropy callables are contract parameters returning byte strings.",
+        "technique": "abstract interpretation (interval entailment, value-provenance terms) + effect/reachability analysis over the call graph",
+        "design": "DESIGN.md section 3 C17",
+    },
+})
+
 NOT_YET = "check not built yet (framework under construction; design in DESIGN.md section 3)"
 
 
